@@ -45,7 +45,13 @@ func kMerge(c J) interface{} {
 	}
 	for i, s := range arr(c, "steps") {
 		st := obj(s)
-		if err := cfg.Merge(buildValue(st["b"]), buildOpts(st["opts"])...); err != nil {
+		var src interface{}
+		if b, _ := st["self"].(bool); b {
+			src = cfg // the very same object as source and destination
+		} else {
+			src = buildValue(st["b"])
+		}
+		if err := cfg.Merge(src, buildOpts(st["opts"])...); err != nil {
 			return J{"stage": "step" + strconv.Itoa(i), "res": canonErr(err)}
 		}
 	}
